@@ -26,7 +26,7 @@ for m in sorted(glob.glob(os.path.join(V, 'seeded', '*', 'meta.json'))):
     r = _by.setdefault(pid, [0, 0, 0])
     r[0] += 1
     cb = d.get('caught_by', '')
-    if 'initially MISSED' in cb or 'initially no concrete' in cb or 'MISSED' in cb.split(';')[0]:
+    if 'initially MISSED' in cb or 'initially no concrete' in cb or 'MISSED' in cb.split(';')[0] or cb.startswith('not reported by'):
         r[1] += 1
     if 'no-failing-input-found' in cb:
         r[2] += 1
